@@ -32,6 +32,7 @@ type ChainDB interface {
 
 	CandidatesRanking(hash common.Hash, voteLogs types.ChangeLogSlice)
 	GetCandidatesTop(hash common.Hash) []*store.Candidate
+	GetStableCandidatesTop() []*store.Candidate
 	GetAllCandidates() ([]common.Address, error)
 
 	GetAssetID(id common.Hash) (common.Address, error)
